@@ -1,4 +1,5 @@
 import PdfModel.Lemmas.Xref
+import PdfModel.Lemmas.XrefStream
 
 /-!
 # C02 — the newest cross-reference entry for an object always wins
@@ -145,6 +146,77 @@ theorem split_irrelevant (t : Table) (first : Nat) (a b : List XRef) :
   simp only [addSubs, addSub]
   rw [key]
   cases addFrom t first a <;> simp
+
+
+/-! ## Cross-reference streams: the byte-level section reader returns what a conforming writer wrote -/
+
+/-- **C02, "each section in either xref format" (stream format, one subsection).** Rows written
+    big-endian in any widths `≤ 8` that fit the fields (type field omitted only when every entry is of
+    type 1) are read back exactly, in strict and in tolerant mode, and the cursor ends after the rows. -/
+theorem stream_section_reads_back (first : Nat) (es : List XRef) (w0 w1 w2 : Nat) (rest : List UInt8)
+    (allowErr : Bool) (h0 : w0 ≤ 8) (h1 : w1 ≤ 8) (h2 : w2 ≤ 8)
+    (hf : ∀ e ∈ es, Fits w0 w1 w2 e) (hsz : es.length * (w0 + w1 + w2) < U64) :
+    parseSection first es.length [w0, w1, w2] (encodeRows w0 w1 w2 es ++ rest) allowErr
+      = .ok (⟨first, es⟩, rest) := by
+  unfold parseSection
+  have hrow : ¬ (w0 + w1 + w2 ≥ U64) := by unfold U64; omega
+  have hprod : ¬ (es.length * (w0 + w1 + w2) ≥ U64) := by omega
+  have hlen : ¬ (es.length * (w0 + w1 + w2) > (encodeRows w0 w1 w2 es ++ rest).length) := by
+    rw [List.length_append, encodeRows_length _ _ _ _ hf]; omega
+  simp only [hrow, hprod, hlen, if_false]
+  rw [readEntries_encode w0 w1 w2 es rest [] h0 h1 h2 hf]
+  simp
+
+/-- **C02, any subsection splitting (stream format).** The `/Index` loop reads every subsection of a
+    section back, in order: `parseSections` inverts the concatenation of the encoded subsections. -/
+theorem stream_sections_read_back (subs : List Sub) (w0 w1 w2 : Nat) (allowErr : Bool)
+    (h0 : w0 ≤ 8) (h1 : w1 ≤ 8) (h2 : w2 ≤ 8)
+    (hf : ∀ s ∈ subs, ∀ e ∈ s.entries, Fits w0 w1 w2 e)
+    (hsz : ∀ s ∈ subs, s.entries.length * (w0 + w1 + w2) < U64) (acc : List Sub) :
+    parseSections [w0, w1, w2] allowErr (subs.map fun s => (s.first, s.entries.length))
+        (subs.flatMap fun s => encodeRows w0 w1 w2 s.entries) acc
+      = .ok (acc.reverse ++ subs) := by
+  induction subs generalizing acc with
+  | nil => simp [parseSections]
+  | cons s ss ih =>
+    simp only [List.map_cons, List.flatMap_cons, parseSections]
+    rw [stream_section_reads_back s.first s.entries w0 w1 w2 _ allowErr h0 h1 h2
+          (hf s (by simp)) (hsz s (by simp))]
+    simp only
+    rw [ih (fun x hx => hf x (by simp [hx])) (fun x hx => hsz x (by simp [hx]))]
+    simp
+
+/-- a concrete section with all three entry kinds satisfies the hypotheses (non-vacuity) -/
+example : ∀ e ∈ [XRef.free 0 65535, .raw 1234 0, .stream 7 3], Fits 1 2 2 e := by
+  intro e he
+  simp only [List.mem_cons, List.not_mem_nil, or_false] at he
+  rcases he with rfl | rfl | rfl <;> simp [Fits, fieldsOf]
+
+example : parseSection 0 3 [1, 2, 2] (encodeRows 1 2 2 [.free 0 65535, .raw 1234 0, .stream 7 3]) false
+    = .ok (⟨0, [.free 0 65535, .raw 1234 0, .stream 7 3]⟩, []) := by decide
+
+/-- **C02, file → table, stream format.** A history whose sections are all written as cross-reference
+    streams (any widths per section, any subsection splitting) is read and merged to the table that
+    holds the newest mention of every well-formed object number: the composition of the byte-level
+    reader with `merge_newest_wins`. `enc` describes the file: per section its widths and its bytes. -/
+theorem stream_history_newest_wins (size : Nat) (h : List (List Sub)) (id : Nat) (hid : id < size)
+    (wf : WF h id) (allowErr : Bool)
+    (widths : List Sub → Nat × Nat × Nat)
+    (hw : ∀ sec ∈ h, (widths sec).1 ≤ 8 ∧ (widths sec).2.1 ≤ 8 ∧ (widths sec).2.2 ≤ 8)
+    (hf : ∀ sec ∈ h, ∀ s ∈ sec, ∀ e ∈ s.entries, Fits (widths sec).1 (widths sec).2.1 (widths sec).2.2 e)
+    (hsz : ∀ sec ∈ h, ∀ s ∈ sec,
+      s.entries.length * ((widths sec).1 + (widths sec).2.1 + (widths sec).2.2) < U64) :
+    (∀ sec ∈ h,
+      parseSections [(widths sec).1, (widths sec).2.1, (widths sec).2.2] allowErr
+        (sec.map fun s => (s.first, s.entries.length))
+        (sec.flatMap fun s => encodeRows (widths sec).1 (widths sec).2.1 (widths sec).2.2 s.entries) []
+        = .ok sec) ∧
+    ∃ t, mergeAll (newTable size) h.reverse = .ok t ∧ t[id]? = some ((latest h id).getD .invalid) := by
+  refine ⟨?_, merge_newest_wins size h id hid wf⟩
+  intro sec hsec
+  obtain ⟨a, b, c⟩ := hw sec hsec
+  have := stream_sections_read_back sec _ _ _ allowErr a b c (hf sec hsec) (hsz sec hsec) []
+  simpa using this
 
 /-! ## The rule before the repair (D11) did not satisfy the property
 
